@@ -13,7 +13,9 @@ ROOT = os.path.dirname(os.path.dirname(os.path.abspath(__file__)))
 COQ = os.path.join(ROOT, "coq")
 HARNESS = os.path.join(ROOT, "harness")
 BUILD = os.path.join(ROOT, "build")
-REPO = "/repo"
+# The registered checks always run against /repo. VERIF_REPO lets the self-test machinery point a scratch copy
+# of /verif at a scratch worktree of the repository (seeded-mutant runs) without touching /repo.
+REPO = os.environ.get("VERIF_REPO", "/repo")
 
 FORBIDDEN = re.compile(
     r"\b(Admitted|admit|Axiom|Axioms|Parameter|Parameters|Conjecture|Conjectures|Admit Obligations|"
@@ -23,7 +25,14 @@ FORBIDDEN = re.compile(
 
 ALLOWED_AXIOMS = set()  # none: every property theorem must be closed under the global context
 
-ENV = dict(os.environ, CARGO_NET_OFFLINE="true")
+ENV = dict(os.environ, CARGO_NET_OFFLINE="true", VERIF_REPO=REPO)
+
+
+def cargo_paths_override():
+    if REPO == "/repo":
+        return ""
+    ps = [REPO] + [os.path.join(REPO, "crates", c) for c in ("wac-types", "wac-graph", "wac-parser", "wac-resolver")]
+    return " --config 'paths=[%s]'" % ",".join('"%s"' % p for p in ps)
 
 
 class Lock:
@@ -174,7 +183,7 @@ def cargo_build(bins, timeout=2400, extra=""):
         if not os.path.exists(os.path.join(HARNESS, "Cargo.lock")):
             sh(f"cp {REPO}/Cargo.lock {HARNESS}/Cargo.lock")
         args = " ".join(f"--bin {b}" for b in bins)
-        rc, out = sh(f"cargo build --offline {extra} {args}", cwd=HARNESS, timeout=timeout)
+        rc, out = sh(f"cargo build --offline{cargo_paths_override()} {extra} {args}", cwd=HARNESS, timeout=timeout)
         return rc == 0, out
 
 
